@@ -595,7 +595,18 @@ def mapsCompatible (a b : List (V × V)) : Bool :=
                   | some x => x.2 == e.2
                   | none => true)
 
-def mergeable (a b : V) : Bool :=
+/-- `derefMergeOperand` (`types/intersection.go`, since /repo 05acb23): a side built by an Optional / Nilable / pointer
+    schema answers with a pointer to its value; non-nil pointers are followed (at most 8), a nil pointer is a nil result. -/
+def derefMergeN : Nat → V → V
+  | 0, v => v
+  | n + 1, .ptr _ (some v) => derefMergeN n v
+  | _ + 1, .ptr _ none => .nil
+  | _ + 1, v => v
+
+def derefMerge (v : V) : V := derefMergeN 8 v
+
+/-- `mergeValues` on two results that are not pointers (the code before /repo 05acb23 compared the answers as they came). -/
+def mergeable0 (a b : V) : Bool :=
   match a, b with
   | .nil, _ => true
   | _, .nil => true
@@ -608,6 +619,9 @@ def mergeable (a b : V) : Bool :=
       | .strct _ x, .strct _ y =>
         mapsCompatible (x.map (fun f => (V.atom .str f.1, f.2))) (y.map (fun f => (V.atom .str f.1, f.2)))
       | _, _ => false
+
+/-- `mergeValues` (since /repo 05acb23): the values behind the two answers are what is compared and merged. -/
+def mergeable (a b : V) : Bool := mergeable0 (derefMerge a) (derefMerge b)
 
 def validateInter (cfg : Cfg) (env : Env) (l r : Mid) (v : V) : Res :=
   match mergeUnrec cfg (mresIssues (env l v)) (mresIssues (env r v)) with
